@@ -33,8 +33,8 @@ type c03Case struct {
 	// AsBatch[i]: sender i hands its batchable calls over in ONE QueueBatch call (what SendBatch
 	// does), after queueing its other calls one by one
 	AsBatch []bool `json:"as_batch,omitempty"`
-	Queue   int         `json:"queue"`
-	FlushMS int         `json:"flush_ms"`
+	Queue   int    `json:"queue"`
+	FlushMS int    `json:"flush_ms"`
 	// Family of faults; every position is enumerated for the workload.
 	Family string `json:"family"` // op-error | ext-close | srv-fatal | srv-garbage | srv-truncate | srv-close | read-timeout
 	// Partial selects how much of a failing write gets through: 0, 1, -1 (all but one byte)
